@@ -145,10 +145,15 @@ func StartModel(driver, name string) (*Model, error) {
 	if driver == "" {
 		return nil, fmt.Errorf("no driver")
 	}
-	if _, err := os.Stat(driver); err != nil {
+	var cmd *exec.Cmd
+	if _, err := os.Stat(driver + "_" + name); err == nil {
+		// one executable per model (runner/gen_drivers.py)
+		cmd = exec.Command(driver + "_" + name)
+	} else if _, err := os.Stat(driver); err == nil {
+		cmd = exec.Command(driver, name)
+	} else {
 		return nil, err
 	}
-	cmd := exec.Command(driver, name)
 	in, err := cmd.StdinPipe()
 	if err != nil {
 		return nil, err
